@@ -128,9 +128,9 @@ func (vc *VC) goStmt(st *State, x *ssa.Go, guard string) {
 			args = append(args, vc.val(a))
 		}
 		env := &Env{vc: vc, st: st, old: st, vars: map[string]Term{}, pkg: vc.pkgOf(callee)}
-		for i, p := range callee.Params {
+		for i := range callee.Params {
 			if i < len(args) {
-				env.vars[p.Name()] = args[i]
+				env.vars[vc.P.contractParamName(spec, callee, i)] = args[i]
 			}
 		}
 		if mc, ok := cc.Value.(*ssa.MakeClosure); ok {
